@@ -48,14 +48,13 @@ Definition chk_names (p : xnode * option (list N)) : bool :=
   | _, _ => false
   end.
 
-(* the model's verdict for one document: 0 = tree with the witness, 1 = tree without it, 2 = Err, 3 = out of fuel;
-   second component = KnownClass use_loop *)
-Definition model_verdict (w : N) (x : xnode) : N * bool :=
-  (match parse x with
-   | POk out _ => if existsb (N.eqb w) (item_names out) then 0%N else 1%N
-   | PErr => 2%N
-   | POutOfFuel => 3%N
-   end, use_loop x).
+(* the model's verdict for one document: 0 = tree with the witness, 1 = tree without it, 2 = Err, 3 = out of fuel *)
+Definition model_verdict (w : N) (x : xnode) : N :=
+  match parse x with
+  | POk out _ => if existsb (N.eqb w) (item_names out) then 0%N else 1%N
+  | PErr => 2%N
+  | POutOfFuel => 3%N
+  end.
 
 (* ---- the pre-pass clause checked on the IMPLEMENTATION's result, independently of the model's pre-pass:
    rebuild the svgtree after parse_tree from the model's build and the reference table the harness
